@@ -158,6 +158,13 @@ func c19Analyse(c *Ctx, p *Program) {
 						if pix[x.X] {
 							mark(pix, x)
 						}
+					case *ssa.Store:
+						// img2.Pix = <input pixels>: img2 now shares the caller's buffer
+						if pix[x.Val] {
+							if fa, ok := x.Addr.(*ssa.FieldAddr); ok && pixFields[fieldName(fa.X.Type(), fa.Field)] {
+								mark(img, fa.X)
+							}
+						}
 					case *ssa.MakeClosure:
 						cl := x.Fn.(*ssa.Function)
 						encRoots[cl] = true
